@@ -71,6 +71,12 @@ func runeConstsCompared(fns []*ssa.Function, ops ...token.Token) map[int64]bool 
 
 func c11() []*Ob {
 	return []*Ob{
+		{Prop: "C11", ID: "C11.10", Engine: "ALIAS(pooled buffer view)", Floor: 1,
+			Desc:  "a parsed query owns its text: no ByteToStringUnsafe view of the bytes of a bytes.Buffer taken from a sync.Pool is returned, stored or sent — parseCompositeToken's buffer goes back to the pool on return, and a query parsed in parallel rewrites the bytes: the terms of a query built from a document's own value become another request's text",
+			Check: func(c *Ctx) { noViewOfPooledBuffer(c) }},
+		{Prop: "C11", ID: "C11.11", Engine: "PROV(key)", Floor: 2,
+			Desc:  "index side and query side name a field alike: every key the YAML conversion stores into a seq.Mapping is built from the string parameter that carries the field's path from the root (convertMapping's path, convertMappingWithMultipleTypes' fn), not from the item's own name — for a multi-type field inside an object the secondary title would lose the parent ('pod.text' instead of 'k8s.pod.text'): tokens are written under one name and the query is checked against the other",
+			Check: func(c *Ctx) { mappingKeysAreFullPaths(c) }},
 		{Prop: "C11", ID: "C11.8", Engine: "TABLE(loop range)", Floor: 1,
 			Desc: "the table that says which ASCII bytes need lower-casing covers the whole alphabet: the constant-bound loop of initIsUpperASCII marks exactly 'A'..'Z' inclusive (the text tokenizer skips lower-casing an all-ASCII word with no marked byte; the query side lower-cases everything) — with the last letter left out, a word whose only capital is Z is indexed as written and can no longer be found. The rule applies while the table is filled by one counting loop with constant bounds",
 			Check: func(c *Ctx) {
